@@ -52,6 +52,31 @@ class _NoSleep:
     def sleep(s): raise Hang("time.sleep(%r) inside a lock loop" % (s,))
 
 
+class _FailingFile:
+    """a gzip text file whose second write fails"""
+    def __init__(self, real, exc): self.real = real; self.exc = exc; self.n = 0
+    def write(self, x):
+        self.n += 1
+        if self.n >= 2: raise self.exc
+        return self.real.write(x)
+    def __enter__(self): return self
+    def __exit__(self, *a): self.real.close(); return False
+    def __getattr__(self, name): return getattr(self.real, name)
+
+
+class _Gzip:
+    """stands in for the module `gzip` inside coba.context.cachers while ONE get_set runs: opening for writing fails at once, or the
+    second write does"""
+    def __init__(self, how, exc): self.how = how; self.exc = exc; self.hit = False
+    def __getattr__(self, name): return getattr(gzip, name)
+    def open(self, filename, mode="rb", *a, **kw):
+        if "w" in mode or "a" in mode or "x" in mode:
+            self.hit = True
+            if self.how == "io_open": raise self.exc
+            return _FailingFile(gzip.open(filename, mode, *a, **kw), self.exc)
+        return gzip.open(filename, mode, *a, **kw)
+
+
 class RecList(list):
     """the lock table; remembers which entries were ever written"""
     def __init__(self, n): super().__init__([0] * n); self.touched = set()
@@ -132,7 +157,7 @@ def render_line(l, r):
 # ------------------------------------------------------------------ one replay
 class Replay:
     def __init__(self, C, kind, base, keys, lr, salt):
-        self.C = C; self.kind = kind; self.conc = kind.startswith("c"); self.basekind = kind[1:] if self.conc else kind
+        self.C = C; self.CM = C.CM; self.kind = kind; self.conc = kind.startswith("c"); self.basekind = kind[1:] if self.conc else kind
         self.disk = self.basekind == "disk"; self.null = self.basekind == "null"
         self.base = base; self.keys = dict(zip(("k1", "k2", "k3"), keys)); self.lr = lr; self.salt = salt
         self.home = os.path.join(base, "home")
@@ -173,7 +198,8 @@ class Replay:
             me.gens.append("started")
             for x in items: yield x
             if boom is not None: raise boom
-        if f == "fn_list":   g = lambda: (count(), list(ls))[1]
+        if f == "none": return None, None
+        if f in ("fn_list", "io_open", "io_write"): g = lambda: (count(), list(ls))[1]
         elif f == "fn_gen":  g = lambda: (count(), gen(ls, None))[1]
         elif f == "fn_iter": g = lambda: (count(), iter(list(ls)))[1]
         elif f == "fn_term": g = lambda: (count(), [l + ("\n" if i % 2 == 0 else "\r\n") for i, l in enumerate(ls)])[1]
@@ -231,7 +257,13 @@ class Replay:
             elif op == "getset":
                 ls = self.lines(s["vl"])
                 g, exc_obj = self.getter(a["f"], ls, (len(ls) + 1) // 2)
-                cm = c.get_set(self.keys[k], g)
+                if a["f"] in ("io_open", "io_write"):
+                    exc_obj = OSError(28, "No space left on device (injected)")
+                    self.CM.gzip = _Gzip(a["f"], exc_obj)
+                    try: cm = c.get_set(self.keys[k], g)
+                    finally: self.CM.gzip = gzip
+                else:
+                    cm = c.get_set(self.keys[k], g)
                 if a["u"] == "hold": self.hs.append(cm)
                 else: got = self.consume(cm, a["u"])
             elif op == "release":
@@ -283,7 +315,7 @@ class Replay:
                 return None
             if raised is None: return ("no-raise:%s" % x, "returned normally (%r), the spec says it raises %s" % (got if got is not None else ret, x))
             if x == "coba" and not isinstance(raised, C.CobaException): return ("raises:%s" % type(raised).__name__, "raised %s: %s instead of CobaException" % (type(raised).__name__, str(raised)[:120]))
-            if x in ("E", "K") and raised is not exc_obj: return ("raises:%s" % type(raised).__name__, "raised %s: %s instead of the getter's own exception" % (type(raised).__name__, str(raised)[:120]))
+            if x in ("E", "K", "IO") and raised is not exc_obj: return ("raises:%s" % type(raised).__name__, "raised %s: %s instead of the %s" % (type(raised).__name__, str(raised)[:120], "injected OSError" if x == "IO" else "getter's own exception"))
             if x == "B" and raised is not self.body_exc: return ("raises:%s" % type(raised).__name__, "raised %s: %s instead of the exception of the with-body" % (type(raised).__name__, str(raised)[:120]))
             if x == "err" and not isinstance(raised, Exception): return ("raises:%s" % type(raised).__name__, "raised %s" % type(raised).__name__)
             if x == "badkey":
@@ -292,7 +324,7 @@ class Replay:
         else:
             if raised is not None and not isinstance(raised, Exception): return ("raises:%s" % type(raised).__name__, "raised %s" % type(raised).__name__)
         if op in ("getset", "badkey"):
-            called = (self.calls - calls0) if (op == "badkey" or a["f"].startswith(("fn_", "gen_"))) else None
+            called = (self.calls - calls0) if (op == "badkey" or a["f"].startswith(("fn_", "gen_", "io_"))) else None
             if called is not None and called != (1 if obs["called"] else 0):
                 return ("getter-calls", "the getter was called %d times, the spec says %d" % (called, 1 if obs["called"] else 0))
             if op == "getset" and a["f"] in ("val_gen", "valgen_raise") and not obs["called"] and len(self.gens) != gens0:
@@ -408,6 +440,8 @@ def sig_of(kind, s, cls):
         if f.startswith("val") and kind in ("null", "cnull"): q.append("getter-is-the-value")
         elif s["w"] in ("empty", "torn"): q.append("entry-" + s["w"])
         elif f == "fn_raiseK": q.append("getter-KeyboardInterrupt")
+        elif f in ("io_open", "io_write"): q.append("write-fails")
+        elif f == "none": q.append("getter-None")
     q.append(cls)
     return ":".join(q)
 
@@ -468,7 +502,7 @@ def replay_batch(job):
     t0 = time.time()
     import coba.context.cachers as CM
     from coba.exceptions import CobaException
-    C = type("C", (), dict(NullCacher=CM.NullCacher, MemoryCacher=CM.MemoryCacher, DiskCacher=CM.DiskCacher, ConcurrentCacher=CM.ConcurrentCacher, CobaException=CobaException))
+    C = type("C", (), dict(CM=CM, NullCacher=CM.NullCacher, MemoryCacher=CM.MemoryCacher, DiskCacher=CM.DiskCacher, ConcurrentCacher=CM.ConcurrentCacher, CobaException=CobaException))
     old_time = CM.time; old_home = os.environ.get("HOME")
     CM.time = _NoSleep()
     out = dict(cases=0, viol=[], keys=[])
